@@ -467,11 +467,15 @@ func (e *Engine) assertProp(id string, c Value, fr *frame) {
 			e.Stats.AssertsTrivial++
 			return
 		}
-		st.Violated++
 		m, ok := e.model()
 		if !ok {
-			m = map[string]uint64{}
+			// No model of the path condition (a feasibility query timed out earlier and the path may be
+			// infeasible): this is not a counterexample, it is an undecided path.
+			st.Unknown++
+			e.inconclusive("assertion " + id + " is false on a path whose condition has no model (solver unknown earlier on this path)")
+			panic(abortPath{kind: abortStop, msg: "assertion false on undecided path: " + id})
 		}
+		st.Violated++
 		e.recordViolation(Violation{ID: id, Msg: "assertion is false on this path", Inputs: m, Where: fr.where()})
 		panic(abortPath{kind: abortStop, msg: "assertion failed: " + id})
 	case *smt.Term:
